@@ -629,7 +629,37 @@ Definition voutcome_eqb (a b : voutcome) : bool :=
    (aggregatorrole.go), 3 anywhere else in core/workflow or configuration/template. *)
 Inductive c15_case :=
 | CLoad (c : ctx) (r : role) (obs : list (N * outcome))
-| CRace (site : N).
+| CRace (site : N)
+| CSeq (inputs : list (ctx * role)) (steps : list (nat * list (N * outcome))).
+(* CSeq: a history — ONE process loads inputs[i1], inputs[i2], ... one after the other (each under
+   all switch settings, outcomes grouped as in CLoad); the same index may occur several times.
+   The model has no state that outlives a load: every step is [load] of its input. *)
+
+Definition obs_eqb : list (N * outcome) -> list (N * outcome) -> bool :=
+  list_eqb (pair_eqb N.eqb outcome_eqb).
+Definition input_at (inputs : list (ctx * role)) (i : nat) : ctx * role :=
+  nth i inputs (mkCtx [] [] [], Role None KTask (mkBase [] [] [] [] [] [] true) []).
+(* two steps of a history load the same input and report different outcomes *)
+Fixpoint step_conflict (steps : list (nat * list (N * outcome))) : bool :=
+  match steps with
+  | [] => false
+  | (i, o) :: r =>
+    existsb (fun jo => Nat.eqb (fst jo) i && negb (obs_eqb o (snd jo))) r || step_conflict r
+  end.
+
+(* ---------- histories of loads in one process ----------
+   [run_history ss h]: the process loads the inputs of h one after the other, the k-th under the
+   schedule ss[k] of its role goroutines; None when a schedule does not finish its load. *)
+Fixpoint run_history (ss : list schedule) (h : list (ctx * role)) : option (list res) :=
+  match h, ss with
+  | [], _ => Some []
+  | (c, r) :: h', s :: ss' =>
+    match run coded s (WTodo c [] r) with
+    | WDone o => match run_history ss' h' with Some t => Some (o :: t) | None => None end
+    | _ => None
+    end
+  | _ :: _, [] => None
+  end.
 
 Definition corr15 (k : c15_case) : bool :=
   match k with
@@ -637,6 +667,13 @@ Definition corr15 (k : c15_case) : bool :=
     let m := outcome_of (load c r) in
     negb (is_nil obs) && forallb (fun mo => outcome_eqb m (snd mo)) obs
   | CRace _ => true
+  | CSeq inputs steps =>
+    negb (is_nil steps) &&
+    forallb (fun io =>
+               let cr := input_at inputs (fst io) in
+               let m := outcome_of (load (fst cr) (snd cr)) in
+               Nat.ltb (fst io) (length inputs) && negb (is_nil (snd io)) &&
+               forallb (fun mo => outcome_eqb m (snd mo)) (snd io)) steps
   end.
 
 (* ---------- monitor: the property evaluated on what the implementation returned ----------
@@ -656,6 +693,8 @@ Definition corr15 (k : c15_case) : bool :=
    10 ... and some iterator container holds a number of copies that no reading of the property
       gives it (an iterator expanded over a range that is not the one of its own scope)
    11/12/13 data race reported at site 1/2/3
+   14 two loads of the same template with the same variables in one process gave different
+      outcomes: the result of a load depends on what the process loaded before
    20 no observation *)
 Definition obs_enabled_ok (t : onode) : bool :=
   forallb (fun n => match n with ONode _ i _ _ => is_true (i_enabled i) | OIter _ _ _ => true end)
@@ -710,6 +749,22 @@ Definition mon15 (k : c15_case) : N :=
     | _ => 1
     end
   | CRace site => 10 + site
+  | CSeq inputs steps =>
+    if is_nil steps then 20
+    else if step_conflict steps then 14
+    else
+      (fix first (l : list (nat * list (N * outcome))) : N :=
+         match l with
+         | [] => 0
+         | (i, obs) :: r =>
+           let cr := input_at inputs i in
+           let c := match obs with
+                    | [] => 20
+                    | [(_, o)] => mon_load (fst cr) (snd cr) o
+                    | _ => 1
+                    end in
+           if c =? 0 then first r else c
+         end) steps
   end.
 
 (* ---------- branch tag (input distribution) ----------
@@ -717,7 +772,8 @@ Definition mon15 (k : c15_case) : N :=
    literal true; bit 3 the loader before the repairs of C15-a/b/d and the repaired loader differ on it; bit 4 something was pruned or
    expanded (visible roles <> template roles); bit 5 race case; bit 6 an iterator inside the
    template of an iterator has a range that is an expression (not a literal); bit 7 iterators are
-   nested three deep or more *)
+   nested three deep or more; bit 8 a history of loads in one process (then bit 0 = some input
+   fails, bit 1 = some input has an iterator, bit 9 = an input is loaded more than once) *)
 Fixpoint role_count (r : role) : nat :=
   match r with Role _ _ _ kids => S (fold_right (fun k a => role_count k + a)%nat O kids) end.
 Fixpoint has_for (r : role) : bool :=
@@ -767,6 +823,11 @@ Definition tag15 (k : c15_case) : N :=
     + (if nested_dep false r then 64 else 0)
     + (if Nat.leb 3 (for_depth r) then 128 else 0)
   | CRace _ => 32
+  | CSeq inputs steps =>
+    256 + (if existsb (fun cr => match load (fst cr) (snd cr) with Err => true | Ok _ => false end) inputs
+           then 1 else 0)
+        + (if existsb (fun cr => has_for (snd cr)) inputs then 2 else 0)
+        + (if Nat.ltb (length inputs) (length steps) then 512 else 0)
   end.
 
 Definition report15 := report corr15 mon15 tag15.
